@@ -1,7 +1,7 @@
 //! impl subset() for HVAR
 
 use crate::{
-    offset::SerializeSubset,
+    offset::{SerializeSerialize, SerializeSubset},
     serialize::{SerializeErrorFlags, Serializer},
     variations::DeltaSetIndexMapSerializePlan,
     IncBiMap, Plan, Subset, SubsetError, SubsetFlags,
@@ -57,12 +57,7 @@ impl Subset for Hvar<'_> {
         )
         .map_err(|_| SubsetError::SubsetTableError(Hvar::TAG))?;
 
-        serialize_index_maps(
-            s,
-            plan,
-            &index_maps,
-            hvar_subset_plan.index_map_subset_plans(),
-        )
+        serialize_index_maps(s, &index_maps, hvar_subset_plan.index_map_subset_plans())
         .map_err(|_| SubsetError::SubsetTableError(Hvar::TAG))
     }
 }
@@ -84,7 +79,6 @@ impl ListupIndexMaps for Hvar<'_> {
 
 pub(crate) fn serialize_index_maps(
     s: &mut Serializer,
-    plan: &Plan,
     index_maps: &[Option<DeltaSetIndexMap>],
     index_map_plans: &[IndexMapSubsetPlan],
 ) -> Result<(), SerializeErrorFlags> {
@@ -92,16 +86,16 @@ pub(crate) fn serialize_index_maps(
         return Err(SerializeErrorFlags::SERIALIZE_ERROR_OTHER);
     }
 
-    for (index_map, index_map_subset_plan) in index_maps.iter().zip(index_map_plans) {
+    for index_map_subset_plan in index_map_plans {
         let offset_pos = s.embed(0_u32)?;
         if index_map_subset_plan.is_identity() {
             continue;
         }
 
-        Offset32::serialize_subset(
-            index_map.as_ref().unwrap(),
+        // The source table may lack this map: an implicit advance mapping
+        // still gets an explicit map when glyphs are renumbered.
+        Offset32::serialize_serialize::<DeltaSetIndexMap>(
             s,
-            plan,
             &index_map_subset_plan.to_serialize_plan(),
             offset_pos,
         )?;
